@@ -8,7 +8,9 @@ RULE = ("(a) locality: base pair with 2-4 chromosomes vs variants in which OTHER
         "('10' vs '2', case pairs) -> run must raise before any result file; non-trivial = >= 2 chromosomes; distinct = canonical JSON")
 
 NAMESETS = [["Chr1", "Chr2", "Chr3", "Chr4"], ["chrA", "ChrA", "chrB", "ChrB"], ["Chr1", "Chr10", "Chr1_A", "Chr1-alt"],
-            ["scaf.1", "scaf.10", "scaf.2", "scaf_1"], ["A", "B", "a", "b"]]
+            ["scaf.1", "scaf.10", "scaf.2", "scaf_1"], ["A", "B", "a", "b"],
+            # names that a normalisation of digits would merge: leading and inner zeros, zero-padded twins
+            ["scaffold_10", "scaffold_100", "scaffold_101", "scaffold_11"], ["Chr01", "Chr1", "Chr010", "Chr10"], ["c100", "c10", "c1", "c1000"]]
 
 
 def variants_other(r, case, keep):
@@ -84,7 +86,9 @@ def mismatch_cases(r, base):
     if c["genes"]:
         c["variant"] = "gene annotation lacks " + chs[0]; out.append(c)
     for victim in (chs[0], chs[-1]):
-        for newname in (victim + "x", "0" + victim, victim.swapcase() if victim.swapcase() != victim else victim + "_"):
+        import re
+        inner0 = re.sub(r"(\d)", r"\g<1>0", victim, count=1) if re.search(r"\d", victim) else victim + "0"     # a zero after the first digit
+        for newname in (victim + "x", "0" + victim, victim.swapcase() if victim.swapcase() != victim else victim + "_", inner0):
             if newname in chs:
                 continue
             c = copy.deepcopy(base)
